@@ -25,7 +25,7 @@ func init() {
 		},
 		Real:       realAll,
 		Stub:       stubAll,
-		FaultKinds: []string{"restart", "ext_error", "ext_oversize", "client_garbage", "client_browse_oob"},
+		FaultKinds: []string{"restart", "ext_error", "ext_oversize", "client_garbage", "client_browse_oob", "first_func_blocks_request"},
 	})
 }
 
@@ -48,6 +48,10 @@ func runC01(c *core.Ctx) *core.Outcome {
 	}
 	nreq := t.Range(2, 12)
 	persisted := t.Chance(1, 2)
+	// an engine per request with a pre-VM function that now and then turns a request away with a notice
+	// of a drawn length: that notice is output handed to the client like any page
+	cfg.First = persisted && t.Chance(1, 4)
+	blocks := map[int]string{}
 
 	wu := world.New(a, cfg)
 	wu.UseMem()
@@ -69,15 +73,23 @@ func runC01(c *core.Ctx) *core.Outcome {
 				in = genInput(t, a, cur, 1)
 			}
 		}
+		if cfg.First && t.Chance(1, 5) {
+			blocks[i] = padToLen("barred:", t.Range(1, 150))
+			U.BlockFirstNext = blocks[i]
+		}
 		t.End()
 		inputs = append(inputs, in)
 		st := U.Request(in, persisted)
+		U.BlockFirstNext = ""
 		if st.Panic != "" {
 			o.Probes["foreign_panic"]++
 			break
 		}
 		if st.ExecErr == "" && st.FlushErr == "" && len(st.Out) > 0 {
 			lens = append(lens, len(st.Out))
+		}
+		if blocks[i] != "" && st.ExecErr == "" {
+			continue // turned away: the session has not moved and has not ended
 		}
 		if (st.ExecErr != "" && !st.Cont) || (st.ExecErr == "" && !st.Cont) {
 			break
@@ -113,11 +125,34 @@ func runC01(c *core.Ctx) *core.Outcome {
 	for i := range U.Steps {
 		in := inputs[i]
 		us := &U.Steps[i]
+		S.BlockFirstNext = blocks[i]
 		ss := S.Request(in, persisted)
+		S.BlockFirstNext = ""
 		o.Counts["requests"]++
 		if ss.Panic != "" {
 			o.Probes["foreign_panic"]++
 			break
+		}
+		if blocks[i] != "" {
+			o.Faults["first_func_blocks_request"]++
+			if ss.ExecErr == "" && ss.FlushErr == "" && len(ss.Out) > size {
+				return finishC01(o, c, wu, ws, size).Fail("oversize-output", i, map[string]string{"at": "notice-of-the-pre-vm-function"},
+					"request %d input %s: the pre-VM function turned the request away with a notice of %d bytes; %d bytes were handed to the client with OutputSize=%d: %s", i, short(string(in)), len(blocks[i]), len(ss.Out), size, short(ss.Out))
+			}
+			if ss.FlushErr != "" {
+				o.Probes["render_refused"]++
+				o.Probes["pre_vm_notice_refused_for_size"]++
+				near++
+			} else if ss.ExecErr == "" {
+				o.Probes["pre_vm_notice_delivered"]++
+				if size-len(ss.Out) <= 8 {
+					near++
+				}
+			}
+			if ss.ExecErr != "" && !ss.Cont {
+				break
+			}
+			continue
 		}
 		if ss.ExecErr != "" || ss.FlushErr != "" {
 			if ss.FlushErr != "" {
@@ -325,4 +360,12 @@ func finishC01(o *core.Outcome, c *core.Ctx, wu, ws *world.World, size int) *cor
 		o.Scenario = map[string]interface{}{"sized": scenario(ws, nil), "unsized": scenario(wu, nil)["sessions"], "output_size": size}
 	}
 	return finish(o, wu, ws)
+}
+
+// padToLen returns a text of exactly n bytes starting with tag (cut when n is shorter).
+func padToLen(tag string, n int) string {
+	for len(tag) < n {
+		tag += "x"
+	}
+	return tag[:n]
 }
